@@ -100,6 +100,8 @@ type sState struct {
 	drawSites []ssa.Instruction
 	dead      bool
 	limbTerm  map[int]*pt // value of limb arrays (element decoding)
+	geff      []gEffect   // glue domain: effect log
+	gfields   map[string]sVal
 	gcells   map[string]int // package-level variables of the analysed package (heap cells)
 }
 
@@ -127,6 +129,13 @@ func (s *sState) clone() *sState {
 	n.pfacts = append([]pFact(nil), s.pfacts...)
 	n.pbyteSrc = s.pbyteSrc
 	n.drawSites = append([]ssa.Instruction(nil), s.drawSites...)
+	n.geff = append([]gEffect(nil), s.geff...)
+	if s.gfields != nil {
+		n.gfields = make(map[string]sVal, len(s.gfields))
+		for k, v := range s.gfields {
+			n.gfields[k] = v
+		}
+	}
 	if s.limbTerm != nil {
 		n.limbTerm = make(map[int]*pt, len(s.limbTerm))
 		for k, v := range s.limbTerm {
@@ -327,6 +336,7 @@ type schedRet struct {
 }
 
 type sched struct {
+	rootArgs []sVal // arguments of the interpreted entry point
 	p       *Prog
 	tables  map[string]*tabSem
 	nextID  int
